@@ -1,6 +1,8 @@
 import Lean.Data.Json
 import XModel.Opt
 import XModel.Argmin
+import XModel.OptNum
+import XModel.OptMaxStep
 /-! Line-protocol suite `opt`: trace acceptance for `Optimize.solve / step / reload`.
     One line = one API call with the state the implementation was in before the call, the recorded
     user-function table and the solver's choice of evaluation points (the numerics are an oracle);
@@ -60,6 +62,7 @@ structure Problem where
   nt : Nat
   weights : List Float
   limits : List (Option (Float × Float))
+  maxStep : List (Option Float)
   tvalue : List Float
   ttol : List Float
   ftable : List (List UInt64 × Option (List Float))
@@ -108,6 +111,9 @@ def problemOfJson (j : Json) : Option Problem := do
   let lims ← (fieldArr j "limits").bind (·.mapM (fun (l : Json) => match l with
     | .null => some none
     | v => (vecOfJson v).bind (fun p => match p with | [a, b] => some (some (a, b)) | _ => none)))
+  let ms : List (Option Float) := match fieldArr j "max_step" with
+    | some l => l.map (fun (v : Json) => match v with | .str h => floatOfHex h | _ => none)
+    | none => []
   let tv ← (field j "tvalue").bind vecOfJson
   let tt ← (field j "ttol").bind vecOfJson
   let ft ← (fieldArr j "ftable").bind (·.mapM (fun (e : Json) => match e with
@@ -118,7 +124,64 @@ def problemOfJson (j : Json) : Option Problem := do
     | _ => none))
   let at_ ← fieldBool j "assert"
   let rs ← fieldBool j "restore"
-  pure ⟨n, nt, w, lims, tv, tt, ft, at_, rs⟩
+  pure ⟨n, nt, w, lims, ms, tv, tt, ft, at_, rs⟩
+
+
+/-! ### the numerics of a solver step, replayed on doubles (C10, `max_step`) -/
+
+def fops : OptNum.Ops Float := ⟨(· - ·), (· * ·), (· / ·), Float.abs, fun a b => decide (a < b), 0.0⟩
+
+/-- what the trace records about the numerics of one solver step: the argument and the result of
+    `_clip_to_max_steps` (absent when the solver stopped before computing a step) -/
+structure StepNum where
+  raw : Option (List Float)
+  xstep : Option (List Float)
+
+def stepNumOfJson (j : Json) : StepNum :=
+  ⟨(field j "raw").bind vecOfJson, (field j "xstep").bind vecOfJson⟩
+
+def sameBits (n : Nat) (f g : Nat → Float) : Bool := (List.range n).all (fun i => (f i).toBits == (g i).toBits)
+
+def halves (k : Nat) : Float := (List.range k).foldl (fun a _ => a / 2.0) 1.0
+
+/-- limits in solver units, as `_get_x_limits` computes them: `(limits or (-1e200, 1e200)) / weight` -/
+def xLo (p : Problem) (i : Nat) : Float :=
+  (match p.limits.getD i none with | some (lo, _) => lo | none => -1e200) / p.weights.getD i 1.0
+def xHi (p : Problem) (i : Nat) : Float :=
+  (match p.limits.getD i none with | some (_, hi) => hi | none => 1e200) / p.weights.getD i 1.0
+
+def maxsX (p : Problem) : Nat → Option Float :=
+  OptNum.maxsOf fops (fun i => p.maxStep.getD i none) (fun i => some (p.weights.getD i 1.0))
+
+/-- one solver step: the recorded result of `_clip_to_max_steps` is `OptNum.clip` of its recorded argument, and every
+    recorded trial point is `OptNum.trialPoint` of the start point, that clipped step and `2^-alpha`, bit for bit -/
+def stepNumOK (p : Problem) (x0 : Nat → Float) (it : Iter Float) (sn : StepNum) : Bool × Bool :=
+  match sn.raw, sn.xstep with
+  | some raw, some xs =>
+    let clipOK := sameBits p.n (OptNum.clip fops (maxsX p) p.n (vecFn raw)) (vecFn xs)
+    let pts := it.trials ++ [it.last]
+    let trialOK := (List.range pts.length).all (fun k =>
+      match pts[k]? with
+      | some pt => sameBits p.n pt (OptNum.trialPoint fops (xLo p) (xHi p) x0 (vecFn xs) (halves k))
+      | none => true)
+    (clipOK, trialOK)
+  | _, _ => (true, true)
+
+/-- run the loop of `Optimize.step` as the model does, checking the numerics of every executed solver step against the
+    model's own start point (`iterX0`) -/
+def checkLoop (p : Problem) (c : Cfg Float) : List (Iter Float × StepNum) → St Float → Bool × Bool × Nat
+  | [], _ => (true, true, 0)
+  | (it, sn) :: rest, s =>
+    let x0 := iterX0 c it.resync s
+    let (a, b) := if it.early then (true, true) else stepNumOK p x0 it sn
+    let counted := if it.early then 0 else (match sn.raw with | some _ => 1 | none => 0)
+    match optIter c it.resync it.early it.jac it.trials it.last it.pe s with
+    | (.ok _, s1) =>
+      if s1.lastWithin then (a, b, counted)
+      else
+        let (a2, b2, n2) := checkLoop p c rest s1
+        (a && a2, b && b2, counted + n2)
+    | (.error _, _) => (a, b, counted)
 
 def step (j : Json) : Json :=
   match (field j "problem").bind problemOfJson, field j "pre", field j "call" with
@@ -145,6 +208,14 @@ def step (j : Json) : Json :=
         else if kind == "reload" then reload c ((field call "i").bind (fun v => v.getNat?.toOption) |>.getD 0) s0
         else if kind == "tag" then addPoint c s0
         else (.ok (), s0)
+      let nums := ((fieldArr call "its").getD []).map stepNumOfJson
+      let numRes : Bool × Bool × Nat :=
+        if kind == "solve" || kind == "step" then
+          let sStart : St Float := if kind == "solve" then { s0 with solverX := extractX c s0 } else s0
+          match addPoint c sStart with
+          | (.ok _, sA) => checkLoop p c (its.zip nums) sA
+          | _ => (true, true, 0)
+        else (true, true, 0)
       let (r, s1) := res
       let newRows := s1.log.drop log.length
       Json.mkObj [("exc", .str (match r with | .ok _ => "ok" | .error e => errName e)),
@@ -152,6 +223,8 @@ def step (j : Json) : Json :=
         ("last_within", .bool s1.lastWithin), ("take_best", match tb with | some i => .num (JsonNumber.fromNat i) | none => .null),
         -- hypothesis of `C10_disabled_knob_never_changed`: the reloaded row was logged during this call
         ("tb_in_call", .bool (match tb with | some i => decide (log.length ≤ i) | none => true)),
+        -- the numerics of every executed solver step replayed on doubles (`OptNum.clip`, `OptNum.trialPoint`)
+        ("clip_ok", .bool numRes.1), ("trial_ok", .bool numRes.2.1), ("num_steps", .num (JsonNumber.fromNat numRes.2.2)),
         ("rows", .arr (newRows.map (fun rw => Json.mkObj [("knobs", vecJson p.n rw.knobs),
             ("vary_active", .str (flagsStr p.n rw.vAct)), ("target_active", .str (flagsStr p.nt rw.tAct))])).toArray)]
     | _, _, _, _ => Json.mkObj [("bad-op", .str "pre")]
